@@ -56,7 +56,9 @@ out = ['## 8. Which checks catch which seeded changes', '',
        'agent\'s summary and widened the generator, so their "first run" is not a blind one), %d caught by the' % first_thorough,
        'thorough tier only, %d missed by both tiers (one first-round "catch", C05-B, was a false alarm of' % first_missed,
        'the check, section 7, and counts as a miss). Every miss was traced to a generator or oracle gap - or',
-       'to a harness that misrepresented the platform - and the check was strengthened. Now: %d caught by' % now_quick,
+       'to a harness that misrepresented the platform - and the check was strengthened; the changes still',
+       'listed as not caught carry the reason in their row (outside the properties\' domain, longer than any',
+       'case can last, or a CPU this host does not have). Now: %d caught by' % now_quick,
        'the quick tier, %d by the thorough tier only, %d not caught.' % (now_thorough, now_missed),
        'Caught by another property\'s check than the one the agent aimed at: %s.' % ('; '.join(other_check) or 'none'),
        'The patches, demonstrations, logs of the runs and the notes are in `seeded/<id>/`.',
